@@ -5,7 +5,7 @@ every record used bounds it, malformed responses never mark a family done, addre
 come from answer records of usable responses.
 -/
 namespace SSV.Dns
-open SSV.Gen.C17
+open SSV.Gen.C17 SSV.Lru
 
 /-- the expiry is set and at most `t` -/
 def ExpLe (x : Option Nat) (t : Nat) : Prop := ∃ e, x = some e ∧ e ≤ t
@@ -416,6 +416,171 @@ theorem sendQueries_trace (cfg : Config) (now : Nat) (up : Upstream) :
     split
     · exact ht {} now
     · exact ⟨[], rfl, by intro e he; cases he⟩
+
+
+theorem foldAns_done (now : Nat) (xs : List Ans) (b : Builder) :
+    (xs.foldl (applyAns now) b).v4done = b.v4done ∧ (xs.foldl (applyAns now) b).v6done = b.v6done := by
+  induction xs generalizing b with
+  | nil => exact ⟨rfl, rfl⟩
+  | cons x r ih =>
+    have h : (applyAns now b x).v4done = b.v4done ∧ (applyAns now b x).v6done = b.v6done := by
+      unfold applyAns; dsimp only; split
+      · exact ⟨rfl, rfl⟩
+      · split <;> exact ⟨rfl, rfl⟩
+    have := ih (applyAns now b x)
+    simp only [List.foldl_cons]
+    exact ⟨this.1.trans h.1, this.2.trans h.2⟩
+
+theorem foldAuth_done (now : Nat) (xs : List (Bool × Nat)) (b : Builder) :
+    (xs.foldl (applyAuth now) b).v4done = b.v4done ∧ (xs.foldl (applyAuth now) b).v6done = b.v6done := by
+  induction xs generalizing b with
+  | nil => exact ⟨rfl, rfl⟩
+  | cons x r ih =>
+    have h : (applyAuth now b x).v4done = b.v4done ∧ (applyAuth now b x).v6done = b.v6done := by
+      unfold applyAuth; split <;> exact ⟨rfl, rfl⟩
+    have := ih (applyAuth now b x)
+    simp only [List.foldl_cons]
+    exact ⟨this.1.trans h.1, this.2.trans h.2⟩
+
+/-- a response rejected after the answer loop leaves the done flags alone -/
+theorem afterAnswers_err_done (b : Builder) (now : Nat) (m : Msg) (isUDP : Bool)
+    (h : (afterAnswers b now m isUDP).2 = none) :
+    (afterAnswers b now m isUDP).1.v4done = b.v4done ∧ (afterAnswers b now m isUDP).1.v6done = b.v6done := by
+  unfold afterAnswers at h ⊢
+  cases hae : m.ansEnd with
+  | hdrErr => simp
+  | bodyErr ttl => simp
+  | done =>
+    simp only [hae] at h ⊢
+    by_cases hs : (soaOnlyIfZero && b.exp.isSome) = true
+    · simp [hs] at h
+    · simp only [hs, Bool.false_eq_true, if_false] at h ⊢
+      have hf := foldAuth_done now m.auths b
+      cases hau : m.authEnd with
+      | done => simp [hau] at h
+      | hdrErr => simp only [hau, Bool.not_false, if_true]; exact hf
+      | skipErr soa ttl =>
+        simp only [hau, Bool.not_false, if_true]
+        have : (applyAuth now (m.auths.foldl (applyAuth now) b) (soa, ttl)).v4done = (m.auths.foldl (applyAuth now) b).v4done ∧
+            (applyAuth now (m.auths.foldl (applyAuth now) b) (soa, ttl)).v6done = (m.auths.foldl (applyAuth now) b).v6done := by
+          unfold applyAuth; split <;> exact ⟨rfl, rfl⟩
+        exact ⟨this.1.trans hf.1, this.2.trans hf.2⟩
+
+theorem parseBody_err_done (b : Builder) (now : Nat) (m : Msg) (isUDP : Bool)
+    (h : (parseBody b now m isUDP).2 = none) :
+    (parseBody b now m isUDP).1.v4done = b.v4done ∧ (parseBody b now m isUDP).1.v6done = b.v6done := by
+  rw [parseBody_eq] at h ⊢
+  split; · exact ⟨rfl, rfl⟩
+  split; · exact ⟨rfl, rfl⟩
+  split; · exact ⟨rfl, rfl⟩
+  rename_i h1 h2 h3
+  simp only [h1, h2, h3, if_false] at h
+  dsimp only at h ⊢
+  have hb : (if rcodeFailure.contains m.rcode = true then { b with exp := failureExp b.exp now } else b).v4done = b.v4done ∧
+      (if rcodeFailure.contains m.rcode = true then { b with exp := failureExp b.exp now } else b).v6done = b.v6done := by
+    split <;> exact ⟨rfl, rfl⟩
+  split
+  · exact hb
+  · rename_i h4
+    simp only [h4, if_false] at h
+    have h5 := afterAnswers_err_done _ now m isUDP h
+    have h6 := foldAns_done now m.answers (if rcodeFailure.contains m.rcode = true then { b with exp := failureExp b.exp now } else b)
+    exact ⟨h5.1.trans (h6.1.trans hb.1), h5.2.trans (h6.2.trans hb.2)⟩
+
+theorem idCheck_done (b b' : Builder) (id : Nat) (d : Bool) (h : idCheck b id = some (b', d)) :
+    b'.v4done = b.v4done ∧ b'.v6done = b.v6done := by
+  unfold idCheck at h
+  repeat' split at h
+  all_goals first | (cases h; exact ⟨rfl, rfl⟩) | cases h
+
+/-- **malformed / unusable responses never mark a family done** -/
+theorem parseMsg_err_done (b : Builder) (now : Nat) (w : Wire) (isUDP : Bool)
+    (h : (parseMsg b now w isUDP).2 = none) :
+    (parseMsg b now w isUDP).1.v4done = b.v4done ∧ (parseMsg b now w isUDP).1.v6done = b.v6done := by
+  unfold parseMsg at h ⊢
+  cases w with
+  | garbage => exact ⟨rfl, rfl⟩
+  | msg m =>
+    dsimp only at h ⊢
+    cases hi : idCheck b m.id with
+    | none => exact ⟨rfl, rfl⟩
+    | some r =>
+      obtain ⟨b', d⟩ := r
+      have hd := idCheck_done b b' m.id d hi
+      cases d with
+      | true => simp [hi] at h
+      | false =>
+        simp only [hi] at h ⊢
+        have := parseBody_err_done b' now m isUDP h
+        exact ⟨this.1.trans hd.1, this.2.trans hd.2⟩
+
+/-- a wire that `parseMsg` rejects whatever the builder, the time and the transport -/
+def Bad (w : Wire) : Prop := ∀ b now u, (parseMsg b now w u).2 = none
+
+theorem feed_bad_done (tr : List (Nat × Wire × Bool)) (b : Builder) (hb : ∀ e ∈ tr, Bad e.2.1) :
+    (feed b tr).v4done = b.v4done ∧ (feed b tr).v6done = b.v6done := by
+  induction tr generalizing b with
+  | nil => exact ⟨rfl, rfl⟩
+  | cons x r ih =>
+    obtain ⟨now, w, u⟩ := x
+    have h1 := parseMsg_err_done b now w u (hb (now, w, u) (by simp) b now u)
+    have h2 := ih (parseMsg b now w u).1 (fun e he => hb e (by simp [he]))
+    simp only [feed]
+    exact ⟨h2.1.trans h1.1, h2.2.trans h1.2⟩
+
+
+section spec
+variable {K V : Type} [DecidableEq K]
+
+theorem find_append (s t : Spec K V) (k : K) :
+    Spec.find (s ++ t) k = (Spec.find s k).or (Spec.find t k) := by
+  induction s with
+  | nil => simp [Spec.find]
+  | cons p r ih =>
+    obtain ⟨k', v⟩ := p
+    by_cases h : k' = k <;> simp [Spec.find, h, ih]
+
+theorem find_erase_ne (s : Spec K V) (k k' : K) (h : k' ≠ k) : Spec.find (Spec.erase s k) k' = Spec.find s k' := by
+  induction s with
+  | nil => rfl
+  | cons p r ih =>
+    obtain ⟨k0, v⟩ := p
+    by_cases h0 : k0 = k
+    · subst h0
+      have : ¬ (k0 = k') := fun e => h e.symm
+      simp only [Spec.erase, List.filter_cons, not_true_eq_false, decide_false, Bool.false_eq_true, if_false, Spec.find, this]
+      exact ih
+    · by_cases h1 : k0 = k'
+      · subst h1
+        simp [Spec.erase, List.filter_cons, h0, Spec.find]
+      · simp only [Spec.erase, List.filter_cons, h0, not_false_eq_true, decide_true, if_true, Spec.find, h1, if_false]
+        exact ih
+
+theorem find_erase_self (s : Spec K V) (k : K) : Spec.find (Spec.erase s k) k = none := by
+  induction s with
+  | nil => rfl
+  | cons p r ih =>
+    obtain ⟨k0, v⟩ := p
+    by_cases h0 : k0 = k
+    · simp only [Spec.erase, List.filter_cons, h0, not_true_eq_false, decide_false, Bool.false_eq_true, if_false]; exact ih
+    · simp only [Spec.erase, List.filter_cons, h0, not_false_eq_true, decide_true, if_true, Spec.find, if_false]; exact ih
+
+/-- a `Get` moves the entry to the most-recent position but changes no binding -/
+theorem find_get (s : Spec K V) (k k' : K) : Spec.find (Spec.get s k).1 k' = Spec.find s k' := by
+  unfold Spec.get
+  cases h : Spec.find s k with
+  | none => rfl
+  | some v =>
+    simp only [Spec.touch, find_append]
+    by_cases hk : k' = k
+    · subst hk; simp [find_erase_self, Spec.find, h]
+    · have : ¬ (k = k') := fun e => hk e.symm
+      simp [find_erase_ne s k k' hk, Spec.find, this]
+
+theorem get_snd (s : Spec K V) (k : K) : (Spec.get s k).2 = Spec.find s k := by
+  unfold Spec.get; cases Spec.find s k <;> rfl
+
+end spec
 
 
 end SSV.Dns
